@@ -233,7 +233,9 @@ def _rerun_hh(pid):
         if "ops" not in case:
             return True
         run = slice_hh.HHRun(case, rng_for(0, "replay")).run()
-        return any(x.get("pid", pid) == pid for x in run.fails)
+        bad = any(x.get("pid", pid) == pid for x in run.fails)
+        run.close()
+        return bad
 
     return f
 
@@ -566,11 +568,13 @@ def check_C16(tier, seed):
 def check_C10(tier, seed):
     import slice_misc
 
-    return _simple("C10", tier, seed, slice_misc.persist,
+    return _simple("C10", tier, seed, slice_misc.persist_all,
                    "all five classes with random shapes (incl. width/depth 1), non-default max_count/num_reserved/phi (incl. default phi at width 1 and phi=1.0)/seeds ≥ 2^63, states from random adds, "
                    "load with shared_memory False/True: class, every public attribute (type and repr), all tables, n_added/n_records, queries compared with the original; module-level load() "
                    "dispatch and TypeError from the other count-min loaders; continued adds under the same placed draws; merge with the original; a second save/load generation; plus a grid of "
-                   "valid/invalid constructor arguments compared with the model's ctorValid. Distinct by (class, arguments, case number).",
+                   "valid/invalid constructor arguments compared with the model's ctorValid. FRESH PROCESS: sketches of all classes (incl. log16/log8 pairs with equal max_count/num_reserved, created in "
+                   "both orders, counters far above num_reserved) are saved here and loaded in a new interpreter in reverse order; class, public attributes, tables and every answer are compared. "
+                   "Distinct by (class, arguments, case number).",
                    assumptions=["NumPy container I/O (np.savez / np.load) is modelled as storing and returning members unchanged",
                                 "_find_base acceptance is a parameter (BaseOK) of the persistence model: a deterministic function of its arguments"])
 
